@@ -295,4 +295,5 @@ package bfe_tls
 //@   assert[an_aead_record_is_opened_with_the_current_sequence_number_the_record_header_and_the_plaintext_length_as_additional_data] at "payload, err = c.Open(payload[:0], nonce, payload, additionalData[:])" :: (forall k int :: 0 <= k && k < 8 ==> additionalData[k] == hc.seq[k]) && additionalData[8] == b.data[0] && additionalData[9] == b.data[1] && additionalData[10] == b.data[2] && (0 <= n ==> int(additionalData[11]) * 256 + int(additionalData[12]) == n)
 //@   assert[a_record_with_a_mac_is_accepted_only_if_the_mac_and_the_padding_verify] at "hc.inDigestBuf = localMAC" :: paddingGood == 255 && len(localMAC) == len(remoteMAC) && (forall k int :: 0 <= k && k < len(localMAC) ==> localMAC[k] == remoteMAC[k])
 //@   ensures[the_sequence_number_advances_exactly_on_accepted_records] (ok ==> seqVal(hc) == old(seqVal(hc)) + 1) && (!ok ==> seqVal(hc) == old(seqVal(hc)))
+//@   ensures[a_rejected_record_is_answered_with_bad_record_mac] !ok ==> alertValue == alertBadRecordMAC
 //@   ensures[the_application_data_starts_after_the_header_and_the_explicit_iv] ok ==> recordHeaderLen <= prefixLen && prefixLen <= len(b.data)
